@@ -73,6 +73,22 @@ def rand_int(rng, nbytes, signed):
     return rng.randrange(lo, hi + 1)
 
 
+def foreign_items(rng, ty, items, always=False):
+    """Items of an integer list given as zigpy integers of ANOTHER width (or as plain ints): legal inputs - the list
+    type converts every item to its own item type when it serializes."""
+    import zigpy.types as zt
+    c = classify(ty._item_type)
+    if c[0] != "int" or c[2] or not items or not (always or rng.random() < 0.25):
+        return items
+    pool = [zt.uint8_t, zt.uint16_t, zt.uint24_t, zt.uint32_t, zt.uint64_t]
+    out = []
+    for it in items:
+        v = int(it)
+        cands = [q for q in pool if q._size != c[1] and v < (1 << (8 * q._size))]
+        out.append(rng.choice(cands)(v) if cands and rng.random() < 0.8 else v)
+    return out
+
+
 def gen_py(rng, ty, small=False):
     """A random VALID Python value of wire type ty."""
     import zigpy.types as zt
@@ -90,13 +106,13 @@ def gen_py(rng, ty, small=False):
     if k == "lvlist":
         mx = min(256 ** c[1] - 1, 6 if small or rng.random() < 0.9 else 300)
         n = rng.choice([0, 1, mx]) if rng.random() < 0.3 else rng.randrange(0, mx + 1)
-        return ty([gen_py(rng, ty._item_type, True) for _ in range(n)])
+        return ty(foreign_items(rng, ty, [gen_py(rng, ty._item_type, True) for _ in range(n)]))
     if k == "fixlist":
-        return ty([gen_py(rng, ty._item_type, True) for _ in range(c[1])])
+        return ty(foreign_items(rng, ty, [gen_py(rng, ty._item_type, True) for _ in range(c[1])]))
     if k == "greedy":
         # boundary: the empty list (encodes to zero bytes) is a legal value of a greedy list
         n = rng.choice([0, 0, 1, 2, 5]) if rng.random() < 0.5 else rng.randrange(0, 30 if not small else 5)
-        return ty([gen_py(rng, ty._item_type, True) for _ in range(n)])
+        return ty(foreign_items(rng, ty, [gen_py(rng, ty._item_type, True) for _ in range(n)]))
     if k == "struct":
         kw = {}
         for f in ty.fields:
